@@ -121,10 +121,7 @@ theorem np_runObj {rec : Rec} {env : Env} {id : String} {props : List (String ×
         | none => .cerr
         | some m =>
           (interdeps props (fun k => hasKey k m)).bind fun _ =>
-            (forSV (fun k e =>
-              match lookupS k props with
-              | none => .cerr
-              | some p => (rec op env p.ty e).addSeg k) m).bind fun m' =>
+            (forSV (objEntry rec op env props) m).bind fun m' =>
               if op == .V then done else .ok (toStrAny m')
       | _ => .cerr) := by
     intro op
@@ -132,6 +129,7 @@ theorem np_runObj {rec : Rec} {env : Env} {id : String} {props : List (String ×
     · split
       · simp
       · refine np_bind (np_interdeps _ _) (fun _ => np_bind (np_forSV (fun k e => ?_) _) (fun _ => by split <;> simp [np_done]))
+        unfold objEntry
         split
         · simp
         · rename_i p hp
